@@ -402,7 +402,7 @@ func Render(toks []string, layout int, r *Rand) (string, []TokPos) {
 	return sb.String(), pos
 }
 
-var commentBodies = []string{"c", "send [USD 1]", "é ü 日本", "😀 𝔘", "a * b", "x/y", "\"q\"", "{ }", "remaining kept", "1/2 50%"}
+var commentBodies = []string{"c", "send [USD 1]", "é ü 日本", "😀 𝔘", "a\u00a0b\u2003c", "a * b", "x/y", "\"q\"", "{ }", "remaining kept", "1/2 50%"}
 
 func separator(prev, next string, layout int, r *Rand) string {
 	if layout == 0 {
@@ -848,6 +848,28 @@ func (g *Gen) exprOf(typ string, depth int) *GExpr {
 			if g.r.Chance(1, 2) {
 				op = "-"
 			}
+			if g.r.Chance(1, 8) {
+				// operands of DIFFERENT assets, one of them possibly zero: a mismatch, whatever the amounts
+				other := assetPool[(g.r.Intn(len(assetPool)-1)+1)%len(assetPool)]
+				if other == g.asset {
+					other = assetPool[0]
+					if other == g.asset {
+						other = assetPool[1]
+					}
+				}
+				mk := func(a string, zero bool) *GExpr {
+					n := bi(int64(g.r.Intn(30)))
+					if zero {
+						n = bi(0)
+					}
+					return &GExpr{Kind: XMonetary, A: &GExpr{Kind: XAsset, S: a}, B: &GExpr{Kind: XNumber, N: n}}
+				}
+				l, r := mk(g.asset, g.r.Chance(1, 2)), mk(other, g.r.Chance(1, 3))
+				if g.r.Chance(1, 2) {
+					l, r = r, l
+				}
+				return mkInfix(op, l, r)
+			}
 			return mkInfix(op, g.exprOf("monetary", depth-1), g.exprOf("monetary", depth-1))
 		}
 	case "portion":
@@ -864,7 +886,7 @@ func (g *Gen) exprOf(typ string, depth int) *GExpr {
 		return g.varOf("portion")
 	case "string":
 		if g.r.Chance(7, 10) {
-			return &GExpr{Kind: XString, S: g.r.Pick([]string{"k", "k", "k", "key", "key", "hello world", "", "é", "😀", "a😀𝔘b", "a\\\"b", "fee", "ends with a quote\\\""})}
+			return &GExpr{Kind: XString, S: g.r.Pick([]string{"k", "k", "k", "key", "key", "hello world", "", "é", "😀", "a😀𝔘b", "non\u00a0breaking", "\u00a0", "em\u2003space\ufeff", "a\\\"b", "fee", "ends with a quote\\\""})}
 		}
 		return g.varOf("string")
 	}
